@@ -393,6 +393,8 @@ def run(ctx, res):
                     ents.append("G" + p + "\x1d" + "\x1c".join(items))
                     table[p] = items
             wf = "\x1e".join(ents)
+            if pi == 0:
+                wf0, tbl0 = wf, table
             for p in pats:
                 toks = [("", "ls"), ("", p), ('"', p), ("", "end")]
                 le.append(C.case("eg", wf, X.toks_field(toks)))
@@ -415,6 +417,35 @@ def run(ctx, res):
                          [("", "1"), ("", "+"), ("", "{1,2}")], [("", "export"), ("", "PROMPT=$B{a,b}")]]:
                 le.append(C.case("dx", wdx, "30", X.toks_field(toks)))
                 emeta.append((d, None, toks, "dx"))
+        # ------------------------------------------------------------ L1g: token LISTS through each index-buffer pass
+        # (idx counter + reverse write-back): every order of 2..3 tokens (sampled 4..5) over a selected word, the same
+        # word under each tag, and a plain word; per-token oracle, positions preserved
+        gp = {"eh": ("~/x", ["/home/u/x"], lambda t: C.case("eh", "H\x1d/home/u", X.toks_field(t))),
+              "eb": ("{a,b}", ["a", "b"], lambda t: C.case("eb", X.toks_field(t))),
+              "ebr": ("{1..2}", ["1", "2"], lambda t: C.case("ebr", "1", X.toks_field(t))),
+              "eg": ("*.txt", tbl0["*.txt"] and [x for x in tbl0["*.txt"] if not x.startswith(".")], lambda t: C.case("eg", wf0, X.toks_field(t)))}
+        lg, gmeta = [], []
+        for op, (sel, expn, mk) in sorted(gp.items()):
+            kinds = [("", sel), ('"', sel), ("'", sel), ("\\", sel), ("`", sel), ("", "plain")]
+            ls = [list(t) for n in (2, 3) for t in itertools.product(kinds, repeat=n)]
+            ls += [[rng.choice(kinds) for _ in range(rng.randint(4, 5))] for _ in range(150)]
+            for t in ls:
+                lg.append(mk(t))
+                want = []
+                for tg, x in t:
+                    want += [retag(w) for w in expn] if (tg == "" and x == sel) else [(tg, x)]
+                gmeta.append((op, t, toks_line(want)))
+        pg_ = C.write_cases("c12_g.txt", lg)
+        mg = C.run_model(ctx.model["C12"], pg_)
+        ig = C.run_impl(ctx.bins["c12"], pg_, len(lg), shards=1)
+        res.count("L1g_token_lists_per_pass", len(lg))
+        for (op, t, want), a, b in zip(gmeta, mg, ig):
+            if b != want:
+                violate(kind="oracle", layer="L1g", op=op, input=toks_line(t), expected=want, observed=b, model=a,
+                        failing_input=True, note="in a token list each selected token must be replaced in its own place")
+            elif a != b:
+                violate(kind="correspondence", layer="L1g", op=op, input=toks_line(t), model=a, impl=b, failing_input=False,
+                        note="model and implementation disagree on a token list")
         pe = C.write_cases("c12_e.txt", le)
         me = C.run_model(ctx.model["C12"], pe)
         ie = C.run_impl(ctx.bins["c12"], pe, len(le), shards=1)
